@@ -238,13 +238,20 @@ func runSchedule(fen, goCmd string, at phase, cmds []string, holdMs int) schedRe
 	// from the schedule would cut it short
 	const probeFen = "r3k2r/p1ppqpb1/bn2pnp1/3PN3/1p2P3/2N2Q1p/PPPBBPPP/R3K2R w KQkq - 0 1"
 	searchSummary := func(lines []string) string {
+		// the final summary line and the bestmove; `info score` lines printed mid-iteration (only once a search has been running
+		// for 200 ms) depend on the machine's load, not on what the session did before
 		var keep []string
+		last := ""
 		for _, l := range lines {
 			f := strings.Fields(l)
 			if strings.HasPrefix(l, "bestmove") {
+				if last != "" {
+					keep = append(keep, last)
+					last = ""
+				}
 				keep = append(keep, l)
 			} else if strings.HasPrefix(l, "info score") && len(f) >= 6 {
-				keep = append(keep, strings.Join(f[:6], " ")) // info score cp N depth D
+				last = strings.Join(f[:6], " ") // info score cp N depth D
 			}
 		}
 		return strings.Join(keep, " | ")
@@ -311,7 +318,9 @@ func runSchedule(fen, goCmd string, at phase, cmds []string, holdMs int) schedRe
 	return res
 }
 
-func esc(s string) string { return strings.ReplaceAll(strings.ReplaceAll(s, "\\", "\\\\"), "\"", "\\\"") }
+func esc(s string) string {
+	return strings.ReplaceAll(strings.ReplaceAll(s, "\\", "\\\\"), "\"", "\\\"")
+}
 
 func printSched(r schedResult) {
 	q := func(l []string) string {
@@ -394,7 +403,7 @@ func init() {
 					phases = append(phases, phase{engine.VsInnerMoveDone, d, 0}, phase{engine.VsInnerMoveDone, d, nroot - 1})
 					if d >= 3 {
 						// stop noticed deeper in the tree (node depth 2 .. d-1)
-						phases = append(phases, phase{engine.VsInnerMoveDone, d, 1000 * (d - 2)}, phase{engine.VsInnerMoveDone, d, 1000 + (nroot-1)})
+						phases = append(phases, phase{engine.VsInnerMoveDone, d, 1000 * (d - 2)}, phase{engine.VsInnerMoveDone, d, 1000 + (nroot - 1)})
 					}
 				}
 			}
